@@ -17,6 +17,7 @@ import (
 	"runtime/debug"
 	"sort"
 	"strings"
+	"sync"
 	"time"
 
 	netty "github.com/go-netty/go-netty"
@@ -152,6 +153,7 @@ type probe struct {
 }
 
 type chanWorld struct {
+	mapMu    sync.Mutex // guards the maps written by process goroutines (several may run at once after a wake-up)
 	c        *ChanCase
 	s        *sched.Sched
 	tr       *mock.Transport
@@ -231,7 +233,9 @@ func (p probe) HandleRead(ctx netty.InboundContext, message netty.Message) {
 func (p probe) HandleException(ctx netty.ExceptionContext, ex netty.Exception) {
 	if cur := p.w.s.Current(); cur != "" {
 		if _, isWriter := p.w.ops[cur]; isWriter {
+			p.w.mapMu.Lock()
 			p.w.excOn[cur] = ex
+			p.w.mapMu.Unlock()
 			return
 		}
 	}
@@ -252,11 +256,13 @@ func (p probe) HandleWrite(ctx netty.OutboundContext, message netty.Message) {
 	}
 	n, err := ctx.Channel().Write1(b)
 	if cur := p.w.s.Current(); cur != "" {
+		p.w.mapMu.Lock()
 		if err != nil {
 			p.w.lowErr[cur] = err
 		} else if n != len(b) {
 			p.w.lowErr[cur] = io.ErrShortWrite
 		}
+		p.w.mapMu.Unlock()
 	}
 	if err != nil {
 		panic(err)
@@ -328,6 +334,18 @@ func (c chunkWriterTo) WriteTo(w io.Writer) (int64, error) {
 }
 
 var errHandlerClose = errors.New("close-h1")
+
+// gatedCtx is a live context whose Done() is a scheduler gate: the goroutine can be held while the
+// select statement is evaluating its cases, i.e. after the hook before the select and before the
+// select's choice.
+type gatedCtx struct{ s *sched.Sched }
+
+var neverDone = make(chan struct{})
+
+func (g gatedCtx) Deadline() (time.Time, bool)       { return time.Time{}, false }
+func (g gatedCtx) Done() <-chan struct{}             { g.s.Gate(g, "w.ctxdone"); return neverDone }
+func (g gatedCtx) Err() error                        { return nil }
+func (g gatedCtx) Value(key interface{}) interface{} { return nil }
 
 func payloadFor(seed int64, id byte, size int) []byte {
 	b := make([]byte, size)
@@ -401,6 +419,8 @@ func (w *chanWorld) writerMain(ws WriterSpec) func() {
 				c, cancel := context.WithCancel(context.Background())
 				cancel()
 				ctx = c
+			case "gated":
+				ctx = gatedCtx{w.s}
 			case "far":
 				// a context with a deadline that never arrives during the run
 				c, cancel := context.WithDeadline(context.Background(), time.Now().Add(time.Hour))
@@ -408,28 +428,38 @@ func (w *chanWorld) writerMain(ws WriterSpec) func() {
 				ctx = c
 			case "mortal":
 				c, cancel := context.WithCancel(context.Background())
+				w.mapMu.Lock()
 				if w.ctxErrSeen[ws.Name] {
 					cancel()
 				}
 				w.cancels[ws.Name] = cancel
+				w.mapMu.Unlock()
 				ctx = c
 			}
 			switch op.spec.Kind {
 			case "M":
+				w.mapMu.Lock()
 				delete(w.excOn, ws.Name)
+				w.mapMu.Unlock()
+				w.mapMu.Lock()
 				delete(w.lowErr, ws.Name)
+				w.mapMu.Unlock()
 				err = w.ch.Write(buf)
 				if err == nil {
 					n = int64(len(buf))
 				}
 			case "MV":
+				w.mapMu.Lock()
 				delete(w.excOn, ws.Name)
+				w.mapMu.Unlock()
 				err = w.ch.Write(splitParts(buf, op.spec.Parts))
 				if err == nil {
 					n = int64(len(buf))
 				}
 			case "MB":
+				w.mapMu.Lock()
 				delete(w.excOn, ws.Name)
+				w.mapMu.Unlock()
 				err = w.ch.Write(bytes.NewBuffer(buf))
 				if err == nil {
 					n = int64(len(buf))
@@ -437,7 +467,9 @@ func (w *chanWorld) writerMain(ws WriterSpec) func() {
 			case "MD", "MS":
 				// through the shipped codecs: MD = []byte via the delimiter codec (vectored write),
 				// MS = string via text codec + delimiter codec (a reader: body, then delimiter)
+				w.mapMu.Lock()
 				delete(w.excOn, ws.Name)
+				w.mapMu.Unlock()
 				if op.spec.Kind == "MD" {
 					err = w.ch.Write(buf)
 				} else {
@@ -457,10 +489,14 @@ func (w *chanWorld) writerMain(ws WriterSpec) func() {
 				case "RF":
 					n, err = w.ch.ReadFrom(&chunkReader{chunks: cs})
 				case "MR":
+					w.mapMu.Lock()
 					delete(w.excOn, ws.Name)
+					w.mapMu.Unlock()
 					err = w.ch.Write(&chunkReader{chunks: cs})
 				default:
+					w.mapMu.Lock()
 					delete(w.excOn, ws.Name)
+					w.mapMu.Unlock()
 					err = w.ch.Write(chunkWriterTo{cs})
 				}
 				if op.spec.Kind != "RF" && err == nil {
@@ -489,7 +525,10 @@ func (w *chanWorld) writerMain(ws WriterSpec) func() {
 			op.callerNil = err == nil
 			op.res = classify(n, len(op.payload), err)
 			if op.spec.Kind == "M" && err == nil {
-				if ex := w.lowErr[ws.Name]; ex != nil {
+				w.mapMu.Lock()
+				ex := w.lowErr[ws.Name]
+				w.mapMu.Unlock()
+				if ex != nil {
 					// Write returned nil although the low-level write failed (exception raised)
 					op.res = "mexc"
 					op.err = ex
@@ -500,7 +539,9 @@ func (w *chanWorld) writerMain(ws WriterSpec) func() {
 			for i := range buf {
 				buf[i] = 0xEE
 			}
+			w.mapMu.Lock()
 			w.rets[ws.Name] = append(w.rets[ws.Name], op.res)
+			w.mapMu.Unlock()
 		}
 	}
 }
@@ -1216,8 +1257,18 @@ func runChanCase(c *ChanCase) *ChanResult {
 		cancel()
 	}
 	if !w.tr.IsClosed() {
+		// best-effort cleanup; the verdicts are already computed, a failure here must not lose them
 		w.tr.G = nil
-		w.ch.Close(nil)
+		done := make(chan struct{})
+		go func() {
+			defer close(done)
+			defer func() { recover() }()
+			w.ch.Close(nil)
+		}()
+		select {
+		case <-done:
+		case <-time.After(300 * time.Millisecond):
+		}
 	}
 	return res
 }
